@@ -14,8 +14,18 @@ import (
 type RealApp struct {
 	W       *world.World
 	Vals    []*types.Validator
+	ValsAt  func(h uint64) []*types.Validator // optional: the scripted answer of GetValidators(h) / CommitBlock at height h
+	Before  func(b *types.Block)              // optional: called just before / just after the application's CommitBlock
+	After   func(b *types.Block)
 	mu      sync.Mutex
 	Commits []CommitRec
+}
+
+func (a *RealApp) vals(h uint64) []*types.Validator {
+	if a.ValsAt != nil {
+		return a.ValsAt(h)
+	}
+	return a.Vals
 }
 
 func (a *RealApp) Height() uint64                                   { return a.W.App.Height() }
@@ -24,8 +34,8 @@ func (a *RealApp) LoadBlock(h uint64) *types.Block                  { return a.W
 func (a *RealApp) LoadBlockPart(h uint64, i int) *types.Part        { return a.W.App.LoadBlockPart(h, i) }
 func (a *RealApp) LoadBlockCommit(h uint64) *types.Commit           { return a.W.App.LoadBlockCommit(h) }
 func (a *RealApp) LoadSeenCommit(h uint64) *types.Commit            { return a.W.App.LoadSeenCommit(h) }
-func (a *RealApp) GetValidators(h uint64) []*types.Validator        { return a.Vals }
-func (a *RealApp) GetRecoverValidators(h uint64) []*types.Validator { return a.Vals }
+func (a *RealApp) GetValidators(h uint64) []*types.Validator        { return a.vals(h) }
+func (a *RealApp) GetRecoverValidators(h uint64) []*types.Validator { return a.vals(h) }
 func (a *RealApp) SetLastChangedVals(h uint64, v []*types.Validator) {
 	a.W.App.SetLastChangedVals(h, v)
 }
@@ -35,9 +45,15 @@ func (a *RealApp) CreateBlock(height uint64, maxTxs int, gasLimit uint64, timeUn
 func (a *RealApp) PreRunBlock(b *types.Block)     { a.W.App.PreRunBlock(b) }
 func (a *RealApp) CheckBlock(b *types.Block) bool { return a.W.App.CheckBlock(b) }
 func (a *RealApp) CommitBlock(b *types.Block, parts *types.PartSet, seen *types.Commit, fastsync bool) ([]*types.Validator, error) {
+	if a.Before != nil {
+		a.Before(b)
+	}
 	_, err := a.W.App.CommitBlock(b, parts, seen, fastsync)
 	if err != nil {
 		return nil, err
+	}
+	if a.After != nil {
+		a.After(b)
 	}
 	round := -1
 	if fp := seen.FirstPrecommit(); fp != nil {
@@ -46,5 +62,5 @@ func (a *RealApp) CommitBlock(b *types.Block, parts *types.PartSet, seen *types.
 	a.mu.Lock()
 	a.Commits = append(a.Commits, CommitRec{b.Height, b.Hash(), round})
 	a.mu.Unlock()
-	return a.Vals, nil
+	return a.vals(b.Height), nil
 }
